@@ -1852,4 +1852,137 @@ theorem plannedIncrements_closed {batches : List IntOrPct} {R : Int} {c : Nat} {
       simp [hi]
 
 
+/-! ### the filters commute with a relabelling of foreign pods -/
+
+theorem filter_map_inv {α} (f : α → α) (p : α → Bool) (h : ∀ a, p (f a) = p a) (l : List α) :
+    (l.map f).filter p = (l.filter p).map f := by
+  induction l with
+  | nil => rfl
+  | cons a l ih => simp only [List.map_cons, List.filter_cons, h a, ih]; split <;> rfl
+
+/-- what the filters read of a pod is untouched by a relabelling of foreign pods -/
+theorem foreignEq_filter_view {cfg : Cfg} {p q : Pod} (h : ForeignEq cfg p q) :
+    q.name = p.name ∧ q.terminating = p.terminating ∧ q.tmplHash = p.tmplHash ∧ q.ctrlHash = p.ctrlHash ∧
+    q.noNeed = p.noNeed ∧ (lbl q.rolloutId != cfg.rolloutId) = (lbl p.rolloutId != cfg.rolloutId) := by
+  obtain ⟨e1, e2, _, e4, e5, _, e7, e8⟩ := h
+  refine ⟨e1, e2, e4, e5, e7, ?_⟩
+  rcases e8 with ⟨r1, _⟩ | ⟨r1, r2⟩
+  · rw [r1]
+  · simp only [hasId] at r1 r2
+    simp [bne, r1, r2]
+
+set_option linter.unusedSimpArgs false in
+theorem filterUnordered_map (cfg : Cfg) (f : Pod → Pod) (hf : ∀ p, ForeignEq cfg p (f p)) (pods : List Pod) :
+    filterUnordered cfg (pods.map f) = (filterUnordered cfg pods).map f := by
+  have v := fun p => foreignEq_filter_view (hf p)
+  unfold filterUnordered
+  simp only []
+  rw [filter_map_inv f _ (fun a => by have := v a; simp only [this.1, this.2.1, this.2.2.1, this.2.2.2.1, this.2.2.2.2.1, this.2.2.2.2.2]),
+    filter_map_inv f _ (fun a => by have := v a; simp only [this.1, this.2.1, this.2.2.1, this.2.2.2.1, this.2.2.2.2.1, this.2.2.2.2.2]),
+    filter_map_inv f _ (fun a => by have := v a; simp only [this.1, this.2.1, this.2.2.1, this.2.2.2.1, this.2.2.2.2.1, this.2.2.2.2.2]),
+    filter_map_inv f _ (fun a => by have := v a; simp only [this.1, this.2.1, this.2.2.1, this.2.2.2.1, this.2.2.2.2.1, this.2.2.2.2.2])]
+  simp only [List.length_map]
+  split
+  · rfl
+  · split
+    · simp
+    · simp [List.map_take]
+
+theorem insertByKey_map (f : Pod → Pod) (x : Pod × Int) : ∀ l : List (Pod × Int),
+    insertByKey (f x.1, x.2) (l.map fun y => (f y.1, y.2)) = (insertByKey x l).map fun y => (f y.1, y.2) := by
+  intro l
+  induction l with
+  | nil => rfl
+  | cons y l ih =>
+    simp only [List.map_cons, insertByKey]
+    split
+    · rfl
+    · simp [ih]
+
+theorem foldl_insert_map (f : Pod → Pod) : ∀ (l acc : List (Pod × Int)),
+    (l.map fun y => (f y.1, y.2)).foldl (fun acc x => insertByKey x acc) (acc.map fun y => (f y.1, y.2)) =
+      (l.foldl (fun acc x => insertByKey x acc) acc).map fun y => (f y.1, y.2) := by
+  intro l
+  induction l with
+  | nil => intro acc; rfl
+  | cons x l ih =>
+    intro acc
+    simp only [List.map_cons, List.foldl_cons]
+    rw [insertByKey_map f x acc, ih]
+
+theorem mapM_key_map (f : Pod → Pod) (hn : ∀ p, (f p).name = p.name) : ∀ (l : List Pod),
+    (l.map f).mapM (fun p => (sortKey p.name).map (fun k => (p, k))) =
+      (l.mapM (fun p => (sortKey p.name).map (fun k => (p, k)))).map (fun ks => ks.map fun y => (f y.1, y.2)) := by
+  intro l
+  induction l with
+  | nil => rfl
+  | cons a l ih =>
+    simp only [List.map_cons, List.mapM_cons, hn a, ih, Option.bind_eq_bind]
+    cases sortKey a.name with
+    | none => rfl
+    | some k =>
+      cases l.mapM (fun p => (sortKey p.name).map (fun k => (p, k))) with
+      | none => rfl
+      | some ks => rfl
+
+theorem sortPods_map (f : Pod → Pod) (hn : ∀ p, (f p).name = p.name) (pods : List Pod) :
+    sortPods (pods.map f) = (sortPods pods).map (·.map f) := by
+  unfold sortPods
+  simp only [List.length_map]
+  split
+  · rfl
+  · rw [mapM_key_map f hn]
+    cases pods.mapM (fun p => (sortKey p.name).map (fun k => (p, k))) with
+    | none => rfl
+    | some ks =>
+      simp only [Option.map_some]
+      have := foldl_insert_map f ks []
+      simp only [List.map_nil] at this
+      rw [this]
+      simp [List.map_map, Function.comp_def]
+
+set_option linter.unusedSimpArgs false in
+theorem filterOrdered_map (cfg : Cfg) (f : Pod → Pod) (hf : ∀ p, ForeignEq cfg p (f p)) (pods : List Pod) :
+    filterOrdered cfg (pods.map f) = (filterOrdered cfg pods).map (·.map f) := by
+  have v := fun p => foreignEq_filter_view (hf p)
+  unfold filterOrdered
+  rw [sortPods_map f (fun p => (v p).1)]
+  cases sortPods pods with
+  | none => rfl
+  | some s =>
+    simp only [Option.map_some]
+    rw [filter_map_inv f _ (fun a => by have := v a; simp only [this.1, this.2.1, this.2.2.1, this.2.2.2.1, this.2.2.2.2.1, this.2.2.2.2.2]),
+      filter_map_inv f _ (fun a => by have := v a; simp only [this.1, this.2.1, this.2.2.1, this.2.2.2.1, this.2.2.2.2.1, this.2.2.2.2.2]),
+      filter_map_inv f _ (fun a => by have := v a; simp only [this.1, this.2.1, this.2.2.1, this.2.2.2.1, this.2.2.2.2.1, this.2.2.2.2.2]),
+      filter_map_inv f _ (fun a => by have := v a; simp only [this.1, this.2.1, this.2.2.1, this.2.2.2.1, this.2.2.2.2.1, this.2.2.2.2.2])]
+    simp only [List.length_map]
+    split
+    · rfl
+    · split
+      · simp
+      · simp [List.map_take]
+
+theorem applyFilter_map (k : FilterKind) (cfg : Cfg) (f : Pod → Pod) (hf : ∀ p, ForeignEq cfg p (f p)) (pods : List Pod) :
+    applyFilter k cfg (pods.map f) = (applyFilter k cfg pods).map (·.map f) := by
+  cases k with
+  | none => rfl
+  | unordered => simp [applyFilter, filterUnordered_map cfg f hf]
+  | ordered => exact filterOrdered_map cfg f hf pods
+
+/-- (v) through the exported entry point, for all three filters -/
+theorem patchTop_foreign (env : Env) (k : FilterKind) (cfg : Cfg) (f : Pod → Pod)
+    (hf : ∀ p, ForeignEq cfg p (f p)) (pods : List Pod) :
+    (patchTop env k cfg (pods.map f)).2 = (patchTop env k cfg pods).2 := by
+  unfold patchTop
+  have he : (pods.map f).isEmpty = pods.isEmpty := by cases pods <;> rfl
+  rw [he, applyFilter_map k cfg f hf]
+  split
+  · rfl
+  · cases applyFilter k cfg pods with
+    | none => rfl
+    | some fp =>
+      simp only [Option.map_some]
+      exact patch_foreign env cfg fp _ (pointwise_map _ _ hf fp)
+
+
 end RV.LabelPatch
